@@ -166,6 +166,30 @@ func run(c *mon.Ctx) {
 	c.Assume("the oracle is a frozen transcription of the library's documented rule table (internal/ref/scte35rules.go) and of the in/out lists; descriptors are real library objects built through the public API")
 
 	c.Exhaustive("CanClose: 256 x 256 types x event 2 x PTS 2 x 8 (segment_num, segments_expected) pairs (equal, below, above, zero) x 3 sub-segment variants", 256*256*96)
+	c.Floor("concurrent.calls", 20000)
+	c.Stream("concurrent-callers", c.N(3, 150), func(i int, r *gen.Rand) {
+		c.Concurrent("CanClose / Equal / IsIn / IsOut on descriptors of their own", 8, 1500, r, func(q *gen.Rand) string {
+			a := attrs{Type: q.Byte(), Event: uint32(1 + q.Intn(2)), PTS: uint64(1000 + 1000*q.Intn(2)), HasPTS: true, SegNum: byte(q.Intn(3)), SegExp: byte(q.Intn(3)), Noise: q.Uint32() | 1}
+			b := attrs{Type: q.Byte(), Event: uint32(1 + q.Intn(2)), PTS: uint64(1000 + 1000*q.Intn(2)), HasPTS: true, SegNum: byte(q.Intn(3)), SegExp: byte(q.Intn(3)), Noise: q.Uint32() | 1}
+			if q.Bool() {
+				a.Type = q.PickByte([]byte{0x35, 0x37, 0x31, 0x34, 0x11, 0x41, 0x10, 0x36, 0x44})
+				b.Type = q.PickByte([]byte{0x34, 0x36, 0x30, 0x10, 0x40, 0x3c, 0x44})
+			}
+			da, db := mk(a), mk(b)
+			want := ref.CanClose(a.Type, b.Type, a.Event == b.Event, a.PTS == b.PTS, a.SegNum == a.SegExp)
+			if got := da.CanClose(db); got != want {
+				return fmt.Sprintf("type %#02x CanClose type %#02x (event equal=%v, PTS equal=%v, segment_num==expected=%v) = %v, the table says %v", a.Type, b.Type, a.Event == b.Event, a.PTS == b.PTS, a.SegNum == a.SegExp, got, want)
+			}
+			if da.IsIn() != ref.IsSegIn(a.Type) || da.IsOut() != ref.IsSegOut(a.Type) {
+				return fmt.Sprintf("type %#02x: IsIn=%v IsOut=%v", a.Type, da.IsIn(), da.IsOut())
+			}
+			if !da.Equal(da) || da.Equal(db) != (a.Type == b.Type && a.Event == b.Event && a.PTS == b.PTS && a.SegNum == b.SegNum && a.SegExp == b.SegExp) {
+				return fmt.Sprintf("Equal(a,a)=%v Equal(a,b)=%v for attributes %+v / %+v", da.Equal(da), da.Equal(db), a, b)
+			}
+			return ""
+		})
+		c.Class("concurrent-callers")
+	})
 	c.StreamSeedless("canclose", 256, func(in int, r *gen.Rand) {
 		const P, Q = 900000, 900090
 		type inc struct {
